@@ -1,8 +1,673 @@
-//! engine `qasm` (stub: to be filled in)
-use crate::util::Tr;
+//! engine `qasm` (C14): QASM printing and parsing.
+//!
+//! Two directions, both validated by mc/Trace_Qasm.tla against spec/Qasm.tla:
+//!   roundtrip  a circuit c (header `circ`) is printed with `to_qasm` and read back with
+//!              `Circuit::from_qasm`; the event carries the parsed circuit, and (L1) the abstract
+//!              program a plain line reader of the harness recognises in the printed text
+//!   parse      an abstract program (registers + statements, spec/Qasm.tla) is rendered to QASM text
+//!              by the harness (several registers, declaration layouts, phase spellings, unsupported
+//!              constructs), read with `Circuit::from_qasm`; TLC compares with `QParse(prog)`
+//!
+//! options:  --enum n,maxlen[,small]   every circuit over the property's gate list (phases k*pi/4)
+//!           --phases [--maxden D]     rz/rx with every phase k/d, d <= 16 (one circuit per kind and d)
+//!           --zero                    zero-gate circuits on 1..4 qubits
+//!           --random N                random circuits, 1..4 qubits, phases k/d with d in 1..=16
+//!           --outside N               random circuits that contain pp / measure_r / measure_d gates
+//!           --names                   the name table of gate.rs, row by row
+//!           --enum-progs              the systematic program families (offsets, unsupported constructs, spellings)
+//!           --progs N                 random abstract programs
+//!           --stride S                keep every S-th enumerated case (offset = seed mod S)
+//!           --text-file F             debugging: parse the file F with the real code and print the result
+use crate::circ::{ag_json, circ_from_json, enum_circuits, Alphabet};
+use crate::util::{arg_flag, arg_num, arg_val, guarded, Tr};
+use num::Rational64;
+use quizx::circuit::Circuit;
+use quizx::gate::Gate;
+use rand::rngs::StdRng;
+use rand::Rng;
 use serde_json::{json, Value};
 
-#[allow(unused_variables)]
+fn small(x: i64) -> bool {
+    x.abs() < (1 << 31) - 1
+}
+
+fn clean(s: &str) -> String {
+    s.chars().filter(|c| c.is_ascii() && *c != '"' && *c != '\\' && *c != '\n' && *c != '\r').take(140).collect()
+}
+
+/// the concrete text, for the reader of a violation file (TLC ignores it)
+fn clip(text: &str) -> String {
+    text.chars().filter(|c| c.is_ascii()).take(1200).collect()
+}
+
+/// circuit JSON as circ::circ_json, but a phase whose numerator / denominator TLC cannot read is
+/// logged as `[]` (never equal to a pair) with the value in the string field `phs`
+fn gate_json_safe(g: &Gate) -> Value {
+    let vars: Vec<u32> = g.vars.iter().collect();
+    let r: Rational64 = g.phase.to_rational();
+    let (n, d) = (*r.numer(), *r.denom());
+    if small(n) && small(d) {
+        json!({"t": format!("{:?}", g.t), "qs": g.qs, "ph": [n, d], "vars": vars})
+    } else {
+        json!({"t": format!("{:?}", g.t), "qs": g.qs, "ph": [], "phs": format!("{n}/{d}"), "vars": vars})
+    }
+}
+
+fn circ_json_safe(c: &Circuit) -> Value {
+    json!({"n": c.num_qubits(), "gates": c.gates.iter().map(gate_json_safe).collect::<Vec<_>>()})
+}
+
+fn empty_circ() -> Value {
+    json!({"n": 0, "gates": []})
+}
+
+/// nearest k/d (d <= 64) within 1e-12 of x as a reduced pair, `[]` if there is none
+fn ratio_of(x: f64) -> Value {
+    for d in 1..=64i64 {
+        let k = (x * d as f64).round() as i64;
+        if (x - k as f64 / d as f64).abs() < 1e-12 {
+            return json!([k, d]);
+        }
+    }
+    json!([])
+}
+
+/// What a plain line reader sees in the text `to_qasm` printed: (well-formed, abstract program).
+/// Expected shape: the two header lines, `qreg q[n];`, then `name[(x*pi)] q[a], q[b];` per gate.
+fn read_printed(text: &str) -> (bool, Value) {
+    let mut lines = text.lines();
+    let mut ok = lines.next() == Some("OPENQASM 2.0;") && lines.next() == Some("include \"qelib1.inc\";");
+    let mut regs = vec![];
+    let mut stmts = vec![];
+    match lines.next().and_then(|l| l.strip_prefix("qreg q[")).and_then(|r| r.strip_suffix("];")).and_then(|s| s.parse::<usize>().ok()) {
+        Some(n) => regs.push(json!({"name": "q", "size": n})),
+        None => ok = false,
+    }
+    for l in lines {
+        let Some(l) = l.strip_suffix(';') else {
+            ok = false;
+            continue;
+        };
+        let Some((head, rest)) = l.split_once(' ') else {
+            ok = false;
+            continue;
+        };
+        let (name, param) = match head.split_once('(') {
+            Some((nm, p)) => match p.strip_suffix("*pi)").and_then(|x| x.parse::<f64>().ok()) {
+                Some(x) => (nm, json!([ratio_of(x)])),
+                None => {
+                    ok = false;
+                    (nm, json!([[]]))
+                }
+            },
+            None => (head, json!([])),
+        };
+        let mut args = vec![];
+        for a in rest.split(", ") {
+            match a.strip_prefix("q[").and_then(|x| x.strip_suffix(']')).and_then(|x| x.parse::<usize>().ok()) {
+                Some(i) => args.push(json!([1, i])),
+                None => ok = false,
+            }
+        }
+        stmts.push(json!({"s": "gate", "name": name, "param": param, "form": "dec_pi", "args": args}));
+    }
+    (ok, json!({"regs": regs, "ncb": 0, "layout": "std", "stmts": stmts}))
+}
+
+/// one execution: print c, parse the text back
+fn record_roundtrip(cj: &Value, tr: &mut Tr, st: &mut Stats) {
+    let c = circ_from_json(cj);
+    tr.group();
+    tr.emit(json!({"k": "circ", "c": cj}));
+    st.roundtrips += 1;
+    let text = match guarded(|| c.to_qasm()) {
+        Ok(t) => t,
+        Err(m) => {
+            tr.emit(json!({"k": "roundtrip", "res": "panic", "stage": "print", "msg": m, "out": empty_circ(), "text_ok": false,
+                           "printed": {"regs": [], "ncb": 0, "layout": "std", "stmts": []}, "same": false}));
+            st.panics += 1;
+            return;
+        }
+    };
+    let (text_ok, printed) = read_printed(&text);
+    let mut e = json!({"k": "roundtrip", "stage": "parse", "text_ok": text_ok, "printed": printed, "out": empty_circ(), "same": false, "text": clip(&text)});
+    match guarded(|| Circuit::from_qasm(&text)) {
+        Err(m) => {
+            e["res"] = json!("panic");
+            e["msg"] = json!(m);
+            st.panics += 1;
+        }
+        Ok(Err(m)) => {
+            e["res"] = json!("err");
+            e["msg"] = json!(clean(&m));
+            st.errs += 1;
+        }
+        Ok(Ok(c2)) => {
+            e["res"] = json!("ok");
+            e["out"] = circ_json_safe(&c2);
+            e["same"] = json!(c2 == c);
+            st.oks += 1;
+        }
+    }
+    tr.emit(e);
+}
+
+#[derive(Default)]
+struct Stats {
+    roundtrips: usize,
+    programs: usize,
+    oks: usize,
+    errs: usize,
+    panics: usize,
+}
+
+// ---------------------------------------------------------------------------------------
+// abstract programs (spec/Qasm.tla) and their rendering to concrete text
+// ---------------------------------------------------------------------------------------
+
+/// spellings of a phase k/d * pi.  All but the `plain*` ones denote the rational exactly.
+const EXACT_FORMS: [&str; 6] = ["kpi_d", "pi_d", "frac_pi", "pi_frac", "dec_pi", "paren"];
+const PLAIN_FORMS: [&str; 2] = ["plain", "plain11"];
+
+fn render_param(form: &str, k: i64, d: i64) -> String {
+    let sign = if k < 0 { "-" } else { "" };
+    let a = k.abs();
+    match form {
+        "pi_d" if a == 1 => {
+            if d == 1 {
+                format!("{sign}pi")
+            } else {
+                format!("{sign}pi/{d}")
+            }
+        }
+        "kpi_d" | "pi_d" => {
+            if d == 1 {
+                format!("{sign}{a}*pi")
+            } else {
+                format!("{sign}{a}*pi/{d}")
+            }
+        }
+        "frac_pi" => format!("{sign}{a}/{d} * pi"),
+        "pi_frac" => format!("{sign}pi*{a}/{d}"),
+        "paren" => format!("({sign}{a}*pi)/{d}"),
+        "dec_pi" => format!("{}*pi", k as f64 / d as f64),
+        "plain" => format!("{:.6}", k as f64 / d as f64 * std::f64::consts::PI),
+        "plain11" => format!("{:.11}", k as f64 / d as f64 * std::f64::consts::PI),
+        _ => panic!("form {form}"),
+    }
+}
+
+fn render_ref(regs: &[Value], a: &Value) -> String {
+    let name = regs[a[0].as_u64().unwrap() as usize - 1]["name"].as_str().unwrap();
+    let bit = a[1].as_i64().unwrap();
+    if bit < 0 {
+        name.to_string()
+    } else {
+        format!("{name}[{bit}]")
+    }
+}
+
+fn render_stmt(regs: &[Value], s: &Value) -> String {
+    let args: Vec<String> = s["args"].as_array().map(|v| v.iter().map(|a| render_ref(regs, a)).collect()).unwrap_or_default();
+    match s["s"].as_str().unwrap() {
+        "gate" => {
+            let form = s["form"].as_str().unwrap_or("kpi_d");
+            let ps: Vec<String> = s["param"].as_array().unwrap().iter().map(|p| render_param(form, p[0].as_i64().unwrap(), p[1].as_i64().unwrap())).collect();
+            let plist = if ps.is_empty() { String::new() } else { format!("({})", ps.join(",")) };
+            format!("{}{} {};", s["name"].as_str().unwrap(), plist, args.join(", "))
+        }
+        "barrier" => format!("barrier {};", args.join(", ")),
+        "reset" => format!("reset {};", args[0]),
+        "measure" => format!("measure {} -> c[{}];", args[0], s["cbit"]),
+        "U" => format!("U(pi/2,0,pi) {};", args[0]),
+        "if" => format!("if(c=={}) {}", s["val"], render_stmt(regs, &s["then"])),
+        x => panic!("statement kind {x}"),
+    }
+}
+
+/// layouts: std (qregs, creg, statements) / creg_first / late (the last qreg is declared after the statements)
+fn render_prog(p: &Value) -> String {
+    let regs = p["regs"].as_array().unwrap();
+    let ncb = p["ncb"].as_u64().unwrap();
+    let layout = p["layout"].as_str().unwrap();
+    let mut t = String::from("OPENQASM 2.0;\ninclude \"qelib1.inc\";\n");
+    let creg = if ncb > 0 { format!("creg c[{ncb}];\n") } else { String::new() };
+    let decl = |r: &Value| format!("qreg {}[{}];\n", r["name"].as_str().unwrap(), r["size"]);
+    if layout == "creg_first" {
+        t += &creg;
+    }
+    let early = if layout == "late" { regs.len() - 1 } else { regs.len() };
+    for r in &regs[..early] {
+        t += &decl(r);
+    }
+    if layout != "creg_first" {
+        t += &creg;
+    }
+    for s in p["stmts"].as_array().unwrap() {
+        t += &render_stmt(regs, s);
+        t += "\n";
+    }
+    for r in &regs[early..] {
+        t += &decl(r);
+    }
+    t
+}
+
+fn circ_dist(x: f64, y: f64) -> f64 {
+    ((x - y + 1.0).rem_euclid(2.0) - 1.0).abs()
+}
+
+/// one execution: render the abstract program, parse it with the real code
+fn record_parse(p: &Value, tr: &mut Tr, st: &mut Stats) {
+    tr.group();
+    tr.emit(json!({"k": "begin", "what": "parse"}));
+    st.programs += 1;
+    let text = render_prog(p);
+    let mut e = json!({"k": "parse", "prog": p, "out": empty_circ(), "close": [], "tags": prog_tags(p), "text": clip(&text)});
+    match guarded(|| Circuit::from_qasm(&text)) {
+        Err(m) => {
+            e["res"] = json!("panic");
+            e["msg"] = json!(m);
+            st.panics += 1;
+        }
+        Ok(Err(m)) => {
+            e["res"] = json!("err");
+            e["msg"] = json!(clean(&m));
+            st.errs += 1;
+        }
+        Ok(Ok(c)) => {
+            e["res"] = json!("ok");
+            e["out"] = circ_json_safe(&c);
+            // decimal spellings: is the phase read within 1e-5 (units of pi) of the one written?
+            let stmts = p["stmts"].as_array().unwrap();
+            let close: Vec<bool> = c
+                .gates
+                .iter()
+                .enumerate()
+                .map(|(i, g)| {
+                    if stmts.len() != c.gates.len() {
+                        return false;
+                    }
+                    match stmts[i]["param"].as_array().and_then(|a| a.first()) {
+                        Some(kd) => circ_dist(g.phase.to_f64(), kd[0].as_i64().unwrap() as f64 / kd[1].as_i64().unwrap() as f64) < 1e-5,
+                        None => true,
+                    }
+                })
+                .collect();
+            e["close"] = json!(close);
+            st.oks += 1;
+        }
+    }
+    tr.emit(e);
+}
+
+/// signature tags of a program for known_findings.json: the statement kinds present, the first unsupported one
+fn prog_tags(p: &Value) -> Vec<String> {
+    const DEFINED: [&str; 19] = ["rz", "rx", "x", "z", "s", "t", "sdg", "tdg", "h", "cx", "cz", "ccx", "ccz", "swap", "xcx", "init_anc", "post_sel",
+                                 "measure_d", "CX"];
+    let kind = |s: &Value| -> String {
+        let k = s["s"].as_str().unwrap();
+        if k == "gate" && !DEFINED.contains(&s["name"].as_str().unwrap()) {
+            "undefined".to_string()
+        } else {
+            k.to_string()
+        }
+    };
+    let stmts = p["stmts"].as_array().unwrap();
+    let mut tags: Vec<String> = stmts.iter().map(|s| format!("stmt={}", kind(s))).collect();
+    tags.sort();
+    tags.dedup();
+    if let Some(s) = stmts.iter().find(|s| kind(s) != "gate" && kind(s) != "measure") {
+        tags.push(format!("first_bad={}", kind(s)));
+    }
+    tags
+}
+
+/// the real name table, row by row
+fn record_names(tr: &mut Tr) -> usize {
+    use quizx::gate::GType;
+    tr.group();
+    tr.emit(json!({"k": "begin", "what": "names"}));
+    let kinds = ["XPhase", "NOT", "ZPhase", "Z", "S", "T", "Sdg", "Tdg", "CNOT", "CZ", "ParityPhase", "XCX", "SWAP", "HAD", "TOFF", "CCZ",
+                 "InitAncilla", "PostSelect", "Measure", "MeasureReset", "UnknownGate"];
+    for k in kinds {
+        let t = crate::circ::gtype_from(k);
+        assert_eq!(format!("{t:?}"), k);
+        let r = guarded(|| (t.qasm_name(), format!("{:?}", GType::from_qasm_name(t.qasm_name()))));
+        let (name, back) = r.unwrap_or(("PANIC", "PANIC".to_string()));
+        tr.emit(json!({"k": "name", "kind": k, "name": name, "back": back}));
+    }
+    let names = ["rz", "rx", "x", "z", "s", "t", "sdg", "tdg", "h", "cx", "CX", "cz", "ccx", "ccz", "swap", "pp", "xcx", "init_anc", "post_sel",
+                 "measure_d", "measure_r", "UNKNOWN", "y", "u3", "RZ", "Cx", "", "cnot", "measure"];
+    for n in names {
+        let kind = guarded(|| format!("{:?}", GType::from_qasm_name(n))).unwrap_or("PANIC".to_string());
+        tr.emit(json!({"k": "fromname", "name": n, "kind": kind}));
+    }
+    kinds.len() + names.len()
+}
+
+fn gate_stmt(name: &str, params: &[(i64, i64)], form: &str, args: &[(usize, i64)]) -> Value {
+    json!({"s": "gate", "name": name, "param": params.iter().map(|(k, d)| json!([k, d])).collect::<Vec<_>>(), "form": form,
+           "args": args.iter().map(|(r, b)| json!([r, b])).collect::<Vec<_>>()})
+}
+
+fn prog(regs: &[(&str, usize)], ncb: usize, layout: &str, stmts: Vec<Value>) -> Value {
+    json!({"regs": regs.iter().map(|(n, s)| json!({"name": n, "size": s})).collect::<Vec<_>>(), "ncb": ncb, "layout": layout, "stmts": stmts})
+}
+
+/// every qubit reference (register index 1-based, bit) in declaration order
+fn all_refs(regs: &[(&str, usize)]) -> Vec<(usize, i64)> {
+    regs.iter().enumerate().flat_map(|(i, (_, s))| (0..*s).map(move |b| (i + 1, b as i64))).collect()
+}
+
+fn gcd(a: i64, b: i64) -> i64 {
+    if b == 0 {
+        a.abs()
+    } else {
+        gcd(b, a % b)
+    }
+}
+
+/// the unsupported statements of the property and gate names the front end does not declare
+fn unsupported_stmts() -> Vec<Value> {
+    let x = gate_stmt("x", &[], "kpi_d", &[(1, 0)]);
+    let cx = gate_stmt("cx", &[], "kpi_d", &[(1, 1), (2, 0)]);
+    let mut v = vec![
+        json!({"s": "barrier", "args": [[1, 0], [2, 0]]}),
+        json!({"s": "barrier", "args": [[1, -1]]}),
+        json!({"s": "barrier", "args": [[1, -1], [2, -1]]}),
+        json!({"s": "reset", "args": [[1, 1]]}),
+        json!({"s": "reset", "args": [[2, 0]]}),
+        json!({"s": "if", "val": 1, "then": x}),
+        json!({"s": "if", "val": 0, "then": cx}),
+        json!({"s": "if", "val": 3, "then": {"s": "reset", "args": [[1, 0]]}}),
+        json!({"s": "U", "args": [[1, 0]]}),
+        json!({"s": "U", "args": [[2, 0]]}),
+    ];
+    // (name, number of parameters, number of qubits): none of them is declared by the front end
+    for (name, np, nq) in [("y", 0, 1), ("id", 0, 1), ("sx", 0, 1), ("u1", 1, 1), ("u2", 2, 1), ("u3", 3, 1), ("ry", 1, 1), ("p", 1, 1), ("cy", 0, 2),
+                           ("ch", 0, 2), ("crz", 1, 2), ("cu1", 1, 2), ("rzz", 1, 2), ("cswap", 0, 3), ("pp", 0, 2), ("pp", 1, 2), ("measure_r", 0, 1),
+                           ("foo", 0, 1), ("UNKNOWN", 0, 1), ("RZ", 1, 1), ("H", 0, 1)] {
+        let params: Vec<(i64, i64)> = [(1, 2), (0, 1), (1, 4)][..np].to_vec();
+        let args: Vec<(usize, i64)> = [(1, 0), (2, 0), (1, 1)][..nq].to_vec();
+        v.push(gate_stmt(name, &params, "kpi_d", &args));
+    }
+    v
+}
+
+fn enum_progs(emit: &mut impl FnMut(Value)) {
+    // (a) register shapes: 1..3 registers of 1..3 qubits, names whose alphabetical order differs from the declaration
+    //     order; a gate on every reference and between consecutive references; also without any statement
+    let names = ["q", "b", "a"];
+    let mut shapes: Vec<Vec<usize>> = vec![];
+    for a in 1..=3 {
+        shapes.push(vec![a]);
+        for b in 1..=3 {
+            shapes.push(vec![a, b]);
+            for c in 1..=3 {
+                shapes.push(vec![a, b, c]);
+            }
+        }
+    }
+    for sh in &shapes {
+        let regs: Vec<(&str, usize)> = sh.iter().enumerate().map(|(i, s)| (names[i], *s)).collect();
+        let refs = all_refs(&regs);
+        let mut stmts: Vec<Value> = refs.iter().map(|r| gate_stmt("h", &[], "kpi_d", &[*r])).collect();
+        for w in refs.windows(2) {
+            stmts.push(gate_stmt("cx", &[], "kpi_d", &[w[0], w[1]]));
+            stmts.push(gate_stmt("swap", &[], "kpi_d", &[w[1], w[0]]));
+        }
+        for w in refs.windows(3) {
+            stmts.push(gate_stmt("ccx", &[], "kpi_d", &[w[2], w[0], w[1]]));
+        }
+        stmts.push(gate_stmt("rz", &[(3, 4)], "kpi_d", &[*refs.last().unwrap()]));
+        for layout in ["std", "creg_first", "late"] {
+            emit(prog(&regs, 1, layout, stmts.clone()));
+        }
+        emit(prog(&regs, 0, "std", vec![]));
+        emit(prog(&regs, 2, "creg_first", vec![]));
+    }
+    // (b) unsupported constructs and undefined gate names at every position of a small program
+    let regs = [("q", 2), ("r", 1)];
+    let g1 = gate_stmt("h", &[], "kpi_d", &[(1, 1)]);
+    let g2 = gate_stmt("cx", &[], "kpi_d", &[(1, 0), (2, 0)]);
+    for bad in unsupported_stmts() {
+        for pos in 0..4 {
+            let stmts = match pos {
+                0 => vec![bad.clone()],
+                1 => vec![bad.clone(), g1.clone(), g2.clone()],
+                2 => vec![g1.clone(), bad.clone(), g2.clone()],
+                _ => vec![g1.clone(), g2.clone(), bad.clone()],
+            };
+            emit(prog(&regs, 2, "std", stmts));
+        }
+    }
+    // (c) every phase k/d, d <= 16, in every spelling; rz and rx alternate
+    for form in EXACT_FORMS.iter().chain(PLAIN_FORMS.iter()) {
+        for d in 1..=16i64 {
+            let mut stmts = vec![];
+            for k in (1 - d)..=d {
+                if gcd(k, d) != 1 && !(k == 0 && d == 1) {
+                    continue;
+                }
+                if *form == "pi_d" && k.abs() != 1 {
+                    continue;
+                }
+                stmts.push(gate_stmt(if stmts.len() % 2 == 0 { "rz" } else { "rx" }, &[(k, d)], form, &[(1, 0)]));
+            }
+            emit(prog(&[("q", 1)], 0, "std", stmts));
+        }
+        // values outside (-1, 1] and unreduced fractions: the parser normalises
+        if EXACT_FORMS.contains(form) && *form != "pi_d" {
+            let stmts = [(3, 2), (2, 1), (-1, 1), (7, 4), (-5, 4), (2, 4), (4, 4), (0, 3), (9, 8), (-16, 16), (31, 16), (6, 3)]
+                .iter()
+                .map(|kd| gate_stmt("rz", &[*kd], form, &[(1, 0)]))
+                .collect();
+            emit(prog(&[("q", 1)], 0, "std", stmts));
+        }
+    }
+    // (d) beyond the property's text (compared with the specification as refinement only): measurement,
+    //     the built-in CX, ill-typed statements
+    let regs = [("q", 2), ("r", 2)];
+    let h = gate_stmt("h", &[], "kpi_d", &[(2, 1)]);
+    for s in [
+        json!({"s": "measure", "args": [[2, 0]], "cbit": 1}),
+        json!({"s": "measure", "args": [[1, 1]], "cbit": 0}),
+        gate_stmt("CX", &[], "kpi_d", &[(1, 1), (2, 1)]),
+        gate_stmt("cx", &[], "kpi_d", &[(1, 0), (1, 0)]),
+        gate_stmt("ccz", &[], "kpi_d", &[(1, 0), (2, 0), (1, 0)]),
+        gate_stmt("h", &[], "kpi_d", &[(1, 2)]),
+        gate_stmt("rz", &[], "kpi_d", &[(1, 0)]),
+        gate_stmt("x", &[(1, 1)], "kpi_d", &[(1, 0)]),
+        gate_stmt("cx", &[], "kpi_d", &[(1, 0)]),
+        gate_stmt("h", &[], "kpi_d", &[(1, 0), (1, 1)]),
+    ] {
+        emit(prog(&regs, 2, "std", vec![h.clone(), s.clone()]));
+        emit(prog(&regs, 2, "std", vec![s, h.clone()]));
+    }
+}
+
+/// (name, has a phase parameter, number of qubits) of the gates the property lists
+const PROP_GATES: [(&str, bool, usize); 17] = [
+    ("rz", true, 1), ("rx", true, 1), ("x", false, 1), ("z", false, 1), ("s", false, 1), ("t", false, 1), ("sdg", false, 1), ("tdg", false, 1),
+    ("h", false, 1), ("cx", false, 2), ("cz", false, 2), ("ccx", false, 3), ("ccz", false, 3), ("swap", false, 2), ("xcx", false, 2),
+    ("init_anc", false, 1), ("post_sel", false, 1),
+];
+
+fn shuffle<T>(r: &mut StdRng, v: &mut [T]) {
+    for i in (1..v.len()).rev() {
+        v.swap(i, r.random_range(0..=i));
+    }
+}
+
+fn random_phase(r: &mut StdRng) -> (i64, i64) {
+    let d = r.random_range(1..=16i64);
+    (r.random_range((1 - d)..=d), d)
+}
+
+fn random_prog(r: &mut StdRng) -> Value {
+    let pool = ["q", "r", "anc", "a", "b", "data", "q1", "reg_2", "zz", "c0"];
+    let nregs = r.random_range(1..=3usize);
+    let mut names: Vec<&str> = pool.to_vec();
+    shuffle(r, &mut names);
+    let regs: Vec<(&str, usize)> = (0..nregs).map(|i| (names[i], r.random_range(1..=3usize))).collect();
+    let refs = all_refs(&regs);
+    let nst = if r.random_bool(0.1) { 0 } else { r.random_range(1..=7usize) };
+    let mut stmts = vec![];
+    for _ in 0..nst {
+        let cands: Vec<&(&str, bool, usize)> = PROP_GATES.iter().filter(|g| g.2 <= refs.len()).collect();
+        let (name, hasp, nq) = *cands[r.random_range(0..cands.len())];
+        let mut rs = refs.clone();
+        shuffle(r, &mut rs);
+        let (k, d) = random_phase(r);
+        let forms: Vec<&str> = EXACT_FORMS.iter().chain(PLAIN_FORMS.iter()).copied().filter(|f| *f != "pi_d" || k.abs() == 1).collect();
+        let form = forms[r.random_range(0..forms.len())];
+        let params = if hasp { vec![(k, d)] } else { vec![] };
+        stmts.push(gate_stmt(name, &params, form, &rs[..nq]));
+    }
+    // two programs in five contain one unsupported statement somewhere
+    if r.random_bool(0.4) {
+        let bads = unsupported_stmts();
+        let mut bad = bads[r.random_range(0..bads.len())].clone();
+        // re-target its references into the registers of this program
+        fn retarget(s: &mut Value, refs: &[(usize, i64)], r: &mut StdRng) {
+            if let Some(t) = s.get_mut("then") {
+                retarget(t, refs, r);
+            }
+            if let Some(n) = s.get("args").and_then(|a| a.as_array()).map(|a| a.len()) {
+                let whole = s["args"][0][1].as_i64().unwrap() < 0;
+                let mut rs = refs.to_vec();
+                shuffle(r, &mut rs);
+                if whole {
+                    s["args"] = json!([[rs[0].0, -1]]);
+                } else {
+                    let n = n.min(rs.len());
+                    s["args"] = json!(rs[..n].iter().map(|(a, b)| json!([a, b])).collect::<Vec<_>>());
+                }
+            }
+        }
+        retarget(&mut bad, &refs, r);
+        let at = r.random_range(0..=stmts.len());
+        stmts.insert(at, bad);
+    }
+    let layout = ["std", "creg_first", "late"][r.random_range(0..3)];
+    prog(&regs, r.random_range(1..=3usize), layout, stmts)
+}
+
+/// random circuit over the property's gate list; `outside` adds the gates the front end does not declare
+fn random_qcirc(r: &mut StdRng, n: usize, len: usize, outside: bool) -> Value {
+    let mut kinds: Vec<(&str, bool, usize)> = vec![
+        ("ZPhase", true, 1), ("XPhase", true, 1), ("NOT", false, 1), ("Z", false, 1), ("S", false, 1), ("T", false, 1), ("Sdg", false, 1),
+        ("Tdg", false, 1), ("HAD", false, 1), ("CNOT", false, 2), ("CZ", false, 2), ("TOFF", false, 3), ("CCZ", false, 3), ("SWAP", false, 2),
+        ("XCX", false, 2), ("InitAncilla", false, 1), ("PostSelect", false, 1),
+    ];
+    if outside {
+        kinds.extend([("ParityPhase", true, 0), ("MeasureReset", false, 1), ("Measure", false, 1)]);
+    }
+    let mut gates = vec![];
+    let special = if outside { Some(r.random_range(0..len.max(1))) } else { None };
+    for i in 0..len {
+        let mut cands: Vec<&(&str, bool, usize)> = kinds.iter().filter(|g| g.2 <= n).collect();
+        if special == Some(i) {
+            cands.retain(|g| ["ParityPhase", "MeasureReset", "Measure"].contains(&g.0));
+        }
+        let (t, hasp, nq) = *cands[r.random_range(0..cands.len())];
+        let nq = if nq == 0 { r.random_range(1..=n) } else { nq };
+        let mut qs: Vec<usize> = (0..n).collect();
+        shuffle(r, &mut qs);
+        let ph = if hasp {
+            let (k, d) = random_phase(r);
+            let q = Rational64::new(k, d);
+            json!([*q.numer(), *q.denom()])
+        } else {
+            json!([0, 1])
+        };
+        let vars: Vec<u32> = if t == "Measure" && r.random_bool(0.5) { vec![r.random_range(0..3u32)] } else { vec![] };
+        gates.push(json!({"t": t, "qs": qs[..nq], "ph": ph, "vars": vars}));
+    }
+    json!({"n": n, "gates": gates})
+}
+
 pub fn record(args: &[String], seed: u64, tr: &mut Tr) -> Value {
-    json!({"stub": true})
+    if let Some(f) = arg_val(args, "--text-file") {
+        let text = std::fs::read_to_string(&f).expect("read --text-file");
+        match guarded(|| Circuit::from_qasm(&text)) {
+            Err(m) => eprintln!("PANIC {m}"),
+            Ok(Err(m)) => eprintln!("ERR {m}"),
+            Ok(Ok(c)) => eprintln!("OK {}\n{}", circ_json_safe(&c), c.to_qasm()),
+        }
+    }
+    let mut st = Stats::default();
+    let stride: usize = arg_num(args, "--stride", 1).max(1);
+    let offset = seed as usize % stride;
+    let mut r = crate::gens::rng(seed ^ 0x9a53);
+    // ---- printing then parsing ----
+    let prop_alphabet = Alphabet {
+        oneq: vec!["Z", "S", "T", "Sdg", "Tdg", "NOT", "HAD"],
+        twoq: vec!["CNOT", "CZ", "XCX", "SWAP"],
+        special: vec!["InitAncilla", "PostSelect"],
+        threeq: vec!["CCZ", "TOFF"],
+        phs: vec![1, 2, 3, 4, 5, 6, 7],
+        pp: false,
+    };
+    if arg_flag(args, "--zero") {
+        for n in 1..=4 {
+            record_roundtrip(&ag_json(n, &[]), tr, &mut st);
+        }
+    }
+    for e in args.iter().enumerate().filter(|(_, a)| *a == "--enum").map(|(i, _)| args[i + 1].clone()) {
+        let p: Vec<&str> = e.split(',').collect();
+        let (n, maxlen) = (p[0].parse::<usize>().unwrap(), p[1].parse::<usize>().unwrap());
+        let mut al = prop_alphabet.clone();
+        if p.len() > 2 && p[2] == "small" {
+            al.oneq = vec!["S", "Tdg", "NOT", "HAD"];
+            al.phs = vec![3, 6];
+        }
+        let mut idx = 0usize;
+        enum_circuits(n, maxlen, &al, &mut |gs| {
+            if idx % stride == offset || gs.is_empty() {
+                record_roundtrip(&ag_json(n, gs), tr, &mut st);
+            }
+            idx += 1;
+        });
+    }
+    if arg_flag(args, "--phases") {
+        // the property's quantifier is d <= 16; --maxden probes beyond it (information only, not part of any plan)
+        let maxden: i64 = arg_num(args, "--maxden", 16);
+        for t in ["ZPhase", "XPhase"] {
+            for d in 1..=maxden {
+                let gates: Vec<Value> = ((1 - d)..=d)
+                    .filter(|k| gcd(*k, d) == 1 || (*k == 0 && d == 1))
+                    .map(|k| json!({"t": t, "qs": [0], "ph": [k, d], "vars": []}))
+                    .collect();
+                record_roundtrip(&json!({"n": 1, "gates": gates}), tr, &mut st);
+            }
+        }
+    }
+    for _ in 0..arg_num(args, "--random", 0usize) {
+        let n = r.random_range(1..=4usize);
+        let len = r.random_range(0..=10usize);
+        record_roundtrip(&random_qcirc(&mut r, n, len, false), tr, &mut st);
+    }
+    for _ in 0..arg_num(args, "--outside", 0usize) {
+        let n = r.random_range(1..=4usize);
+        let len = r.random_range(1..=6usize);
+        record_roundtrip(&random_qcirc(&mut r, n, len, true), tr, &mut st);
+    }
+    let nnames = if arg_flag(args, "--names") { record_names(tr) } else { 0 };
+    // ---- parsing generated texts ----
+    if arg_flag(args, "--enum-progs") {
+        let mut idx = 0usize;
+        enum_progs(&mut |p| {
+            if idx % stride == offset {
+                record_parse(&p, tr, &mut st);
+            }
+            idx += 1;
+        });
+    }
+    for _ in 0..arg_num(args, "--progs", 0usize) {
+        let p = random_prog(&mut r);
+        record_parse(&p, tr, &mut st);
+    }
+    json!({"roundtrips": st.roundtrips, "programs": st.programs, "ok": st.oks, "err": st.errs, "panic": st.panics, "name_rows": nnames})
 }
